@@ -204,7 +204,12 @@ impl CaseEngine for C07 {
     }
     fn hang_cpu_seconds(&self) -> f64 {
         // a progress line is emitted per mutant and variant; a mutant takes milliseconds of CPU
-        30.0
+        12.0
+    }
+    fn max_stuck_cases(&self) -> u64 {
+        // mutants that make a *read* of an opened database spin (inconclusive here) are common on the unchanged tree:
+        // they must not end the exploration of the other mutants
+        100_000
     }
     fn hang_signature(&self, _progress: &str, frames: &[String]) -> Option<String> {
         // "opening ... either succeeds or returns an error": a process stuck while *opening* refutes it; stuck while
